@@ -312,6 +312,10 @@ func (d *Driver) twin(st *Step) {
 	if st.Op == "authreq" || st.Op == "backchannel" || (st.Op == "pending" && st.Endpoint == "auth") {
 		link = "auth>" + map[string]string{"okta": OktaHost, "google": GoogleAPI}[d.P.Cfg.Provider]
 	}
+	if st.Op == "authreq" && st.Endpoint == "sign_out" {
+		// the call a sign-out makes is the revocation, which Google serves on its accounts host
+		link = "auth>" + map[string]string{"okta": OktaHost, "google": GoogleAcct}[d.P.Cfg.Provider]
+	}
 	if st.Sub == "slow-upstream-dial" {
 		// the first request is signed and then waits to connect to its backend while the second one runs
 		link, kind = "proxy-up>"+st.Name, simnet.FaultSlowDial
